@@ -26,6 +26,18 @@ computed and whose column `-1` holds `u₋₁` (documented).  The model passes t
 pre-multiplied sum `N`.
 
 `nt < 2` raises `IndexError` in the code (`force[:, 1]`); the model returns `none`.
+
+Added with the second extension (all core Lean):
+  def_nonlin / _get_nonlin -> `NlTerm`, `applyT`, `defNonlin`, `getNonlin`, `zOut`: the dictionary of terms with
+                        `T' = A⁻¹ T` formed column by column AT THE TIME OF THE CALL, `N = 0.0; N += T' @ z`, the
+                        recorded callback outputs `sol.z`; and the solver object under call sequences
+                        (`NlCall`, `NlWorld`, `runCalls`: caller arrays named by an id, overwritten in place,
+                        `def_nonlin` with array objects, `tsolve`)
+  m = None           -> `identMat`, `massOr`, `matSysOpt` (`np.diag(np.ones(ksize) / sqh)`)
+  rf partition       -> `pick`, `pickMat`, `scatter`, `nonrfOf`, `tsolveNonrf`, `tsolveRf`: the whole `tsolve` on all
+                        `n` rows — rf rows static with `v = a = 0` and initial conditions ignored, the others from
+                        `run` on the non-rf partition of `m, b, k, force, d0, v0`; nonlinear callbacks see the non-rf
+                        rows at every step (fix 62d98b6, finding F63)
 -/
 namespace PyYetiVerif.Newmark
 
@@ -140,6 +152,73 @@ def run (S : Sys V α) (nl : Nat → List V → V) (F : List V) (d0 v0 : V) : Op
 
 end scheme
 
+/-! ### nonlinear terms: `def_nonlin`, `_get_nonlin`, `sol.z` -/
+section nonlin
+variable {α V : Type} [Add V] [VecOps α V]
+open VecOps
+
+/-- one entry of `self.nl_dct`: the callback (it sees the step index `j` and the reversed history
+`[d_j, …, d_0, u₋₁]`, returns the 1d array `z`) and the columns of the pre-multiplied transform `T' = A⁻¹ T` -/
+structure NlTerm (α V : Type) where
+  func : Nat → List V → List α
+  Tp : List V
+
+/-- `T @ z`: the combination `Σ_k z_k · T[:, k]` of the columns, accumulated from `zero` -/
+def applyT (zero : V) (cols : List V) (z : List α) : V :=
+  (List.zipWith (fun c zk => smul zk c) cols z).foldl (· + ·) zero
+
+/-- `def_nonlin(dct)`: every transform is pre-multiplied by `A⁻¹` (`v[1] / self.Ad[:, None]` or
+`la.lu_solve(self.Ad, v[1])`, column by column) when the call is made; the result REPLACES `self.nl_dct` -/
+def defNonlin (S : Sys V α) (dct : List ((Nat → List V → List α) × List V)) : List (NlTerm α V) :=
+  dct.map fun ft => { func := ft.1, Tp := ft.2.map S.solve }
+
+/-- `_get_nonlin(j)`: `N = 0.0; for key, (func, T, args) in nl_dct.items(): N += T @ func(D, j, h)` -/
+def getNonlin (zero : V) (terms : List (NlTerm α V)) (j : Nat) (hist : List V) : V :=
+  terms.foldl (fun N t => N + applyT zero t.Tp (t.func j hist)) zero
+
+/-- reversed history the callback sees at step `j` of a finished run: `[d_j, …, d_0, u₋₁]` -/
+def histAt (um : V) (ds : List V) (j : Nat) : List V := (ds.take (j + 1)).reverse ++ [um]
+
+/-- `sol.z`: for every term the callback outputs `z[:, j] = func(D, j, h)`, `j = 0 … nt − 1` -/
+def zOut (terms : List (NlTerm α V)) (um : V) (ds : List V) : List (List (List α)) :=
+  terms.map fun t => (List.range ds.length).map fun j => t.func j (histAt um ds j)
+
+end nonlin
+
+/-! ### the solver object under call sequences (`def_nonlin` re-defined between `tsolve` calls) -/
+section calls
+variable {α V : Type} [Add V] [Sub V] [VecOps α V] [Mul α] [OfNat α 2] [OfNat α 3]
+
+/-- what a caller can do with one `SolveNewmark` object and the transform arrays it owns (named by an id) -/
+inductive NlCall (α V : Type) where
+  /-- the caller (over)writes the array object `id` in place -/
+  | setArr (id : Nat) (cols : List V)
+  /-- `ts.def_nonlin(dct)`: the dictionary holds callbacks and array OBJECTS -/
+  | defNonlin (dct : List ((Nat → List V → List α) × Nat))
+  /-- `ts.tsolve(F, d0, v0)` -/
+  | tsolve (F : List V) (d0 v0 : V)
+
+/-- caller's arrays and the object's `nl_dct` -/
+structure NlWorld (α V : Type) where
+  store : Nat → List V
+  obj : List (NlTerm α V)
+
+/-- one call; a `tsolve` also produces an output -/
+def NlWorld.exec (S : Sys V α) (zero : V) (w : NlWorld α V) : NlCall α V → NlWorld α V × Option (Option (Hist V))
+  | .setArr id cols => ({ w with store := fun i => if i = id then cols else w.store i }, none)
+  | .defNonlin dct => ({ w with obj := Newmark.defNonlin S (dct.map fun fi => (fi.1, w.store fi.2)) }, none)
+  | .tsolve F d0 v0 => (w, some (run S (getNonlin zero w.obj) F d0 v0))
+
+/-- outputs of the `tsolve` calls of a call sequence, in order -/
+def runCalls (S : Sys V α) (zero : V) (w : NlWorld α V) : List (NlCall α V) → List (Option (Hist V))
+  | [] => []
+  | c :: cs =>
+    match w.exec S zero c with
+    | (w', some out) => out :: runCalls S zero w' cs
+    | (w', none) => runCalls S zero w' cs
+
+end calls
+
 /-! ### scalar / diagonal instance (`self.unc`) -/
 section scalar
 variable {α : Type} [Add α] [Sub α] [Mul α] [Div α] [OfNat α 2] [OfNat α 3]
@@ -218,6 +297,69 @@ def matSys (M B K : Mat α) (h : α) (solveWith : Mat α → Vec α → Vec α) 
 `ikrf = lu_factor(krf)`; `solveWith krf` stands for the factor/solve pair -/
 def rfStaticMat (krf : Mat α) (solveWith : Mat α → Vec α → Vec α) (Frf : List (Vec α)) : List (Vec α) :=
   Frf.map (solveWith krf)
+
+/-! ### `m = None` and the rf partition -/
+
+/-- `np.diag(np.ones(n))`: with it `matA` forms `np.diag(np.ones(n) / sqh)` entry by entry -/
+def identMat [OfNat α 1] (n : Nat) : Mat α :=
+  (Array.range n).map fun i => (Array.range n).map fun j => if i = j then (1 : α) else 0
+
+/-- the mass the solver works with: identity when `m is None` -/
+def massOr [OfNat α 1] (M : Option (Mat α)) (n : Nat) : Mat α := M.getD (identMat n)
+
+/-- `matSys` for an optional mass -/
+def matSysOpt [OfNat α 1] (M : Option (Mat α)) (B K : Mat α) (h : α)
+    (solveWith : Mat α → Vec α → Vec α) : Sys (Vec α) α :=
+  matSys (massOr M K.size) B K h solveWith
+
+/-- `x[idx]` -/
+def pick (idx : List Nat) (x : Vec α) : Vec α := ⟨(idx.map fun i => x.a.getD i 0).toArray⟩
+/-- `X[np.ix_(idx, idx)]` -/
+def pickMat (idx : List Nat) (X : Mat α) : Mat α :=
+  (idx.map fun i => (idx.map fun j => (X.getD i #[]).getD j 0).toArray).toArray
+
+/-- full-size vector with `x` on the rows `nonrf` and `y` on the rows `rf` -/
+def scatter (n : Nat) (nonrf rf : List Nat) (x y : Vec α) : Vec α :=
+  ⟨(Array.range n).map fun i =>
+    match nonrf.findIdx? (· == i) with
+    | some p => x.a.getD p 0
+    | none =>
+      match rf.findIdx? (· == i) with
+      | some p => y.a.getD p 0
+      | none => 0⟩
+
+/-- rows that are not residual-flexibility rows, in order (`self.nonrf`) -/
+def nonrfOf (n : Nat) (rf : List Nat) : List Nat := (List.range n).filter fun i => !rf.contains i
+
+/-- the non-rf partition of `SolveNewmark(m, b, k, h, rf).tsolve(F, d0, v0)`: `run` on the picked `m, b, k, force, d0,
+v0`; the nonlinear callbacks see the non-rf rows at EVERY step, step 0 included (`D = d[self.nonrf]` in `_init_dva`
+since fix 62d98b6 (F63), `D = d[self.kdof]` in the loop) -/
+def tsolveNonrf [OfNat α 1] (n : Nat) (rf : List Nat) (M : Option (Mat α)) (B K : Mat α) (h : α)
+    (solveWith : Mat α → Vec α → Vec α) (nl : Sys (Vec α) α → Nat → List (Vec α) → Vec α)
+    (F : List (Vec α)) (d0 v0 : Vec α) : Option (Hist (Vec α)) :=
+  let nonrf := nonrfOf n rf
+  let S := matSysOpt (M.map (pickMat nonrf)) (pickMat nonrf B) (pickMat nonrf K) h solveWith
+  run S (nl S) (F.map (pick nonrf)) (pick nonrf d0) (pick nonrf v0)
+
+/-- `SolveNewmark(m, b, k, h, rf).tsolve(F, d0, v0)` on all `n` rows: `(d, v, a)` as lists of full-size columns.
+rf rows: `d = k_rf⁻¹ F_rf` column by column, `v = a = 0`, initial conditions ignored; the other rows: `tsolveNonrf`.
+`none` = `IndexError` (a single time step with at least one non-rf row). -/
+def tsolveRf [OfNat α 1] (n : Nat) (rf : List Nat) (M : Option (Mat α)) (B K : Mat α) (h : α)
+    (solveWith : Mat α → Vec α → Vec α) (nl : Sys (Vec α) α → Nat → List (Vec α) → Vec α)
+    (F : List (Vec α)) (d0 v0 : Vec α) : Option (List (Vec α) × List (Vec α) × List (Vec α)) :=
+  let nonrf := nonrfOf n rf
+  let drf := rfStaticMat (pickMat rf K) solveWith (F.map (pick rf))
+  let zrf : Vec α := ⟨Array.replicate rf.length 0⟩
+  let znr : Vec α := ⟨Array.replicate nonrf.length 0⟩
+  if nonrf.isEmpty then
+    some (drf.map (scatter n nonrf rf znr), drf.map fun _ => scatter n nonrf rf znr zrf,
+      drf.map fun _ => scatter n nonrf rf znr zrf)
+  else
+    match tsolveNonrf n rf M B K h solveWith nl F d0 v0 with
+    | none => none
+    | some hh =>
+      some (List.zipWith (scatter n nonrf rf) hh.d drf, hh.v.map fun x => scatter n nonrf rf x zrf,
+        hh.a.map fun x => scatter n nonrf rf x zrf)
 
 end matrix
 
